@@ -65,7 +65,7 @@ use super::*;
     # ---------------- iterate_with_lines ----------------
     f = cm.fn("iterate_with_lines")
     f.ret("ret")
-    f.props_safety = ["C12"]
+    f.props_safety = ["C12", "C13"]
     sel = "applies(abs_member(cache.string_bytes@, *rem0[j]), old(frame).line as int) && readable(cache.string_bytes@, *rem0[j])"
     if fun:
         f.props_all = ["C01", "C02"]
@@ -148,7 +148,7 @@ use super::*;
     # ---------------- iterate_without_lines ----------------
     g = cm.fn("iterate_without_lines")
     g.ret("ret")
-    g.props_safety = ["C12"]
+    g.props_safety = ["C12", "C13"]
     if fun:
         g.props_all = ["C03", "C02"]
         g.contract("""    requires
@@ -186,7 +186,7 @@ use super::*;
                                   ("get_class_members_by_params", "members_by_params", "members_by_params_offset", "members_by_params_len")):
         h = cm.impl_fn(IMPL, fname)
         h.ret("ret")
-        h.props_safety = ["C12"]
+        h.props_safety = ["C12", "C13"]
         h.props_all = ["C01", "C02", "C03", "C10"] if fun else ["C12"]
         if fun:
             h.contract("""    ensures
@@ -199,7 +199,7 @@ use super::*;
     # ---------------- find_range_by_binary_search ----------------
     fr = cm.impl_fn(IMPL, "find_range_by_binary_search")
     fr.ret("ret")
-    fr.props_safety = ["C12"]
+    fr.props_safety = ["C12", "C13"]
     fr.props_all = ["C01", "C02", "C03", "C04"] if fun else ["C12"]
     # R2: iterator searches behind shims (generic in the method name so that position<->rposition swaps are *verified*, not lost)
     fr.replace_all_re(r"(members\[[^\]]*\])\s*\.iter\(\)\s*\.(r?position)\(", r"shim_slice_\2(&\1, ", "R2",
@@ -255,7 +255,7 @@ use super::*;
     # ---------------- get_class ----------------
     gc = cm.impl_fn(IMPL, "get_class")
     gc.ret("ret")
-    gc.props_safety = ["C12"]
+    gc.props_safety = ["C12", "C13"]
     gc.props_all = ["C04", "C01", "C02"] if fun else ["C12"]
     gc.closure("|c|", params="|c: &raw::Class|", ret="o: Ordering",
                spec="ensures o == class_cmp(self.string_bytes@, *c, name@)" if fun else "")
@@ -291,7 +291,7 @@ use super::*;
     # ---------------- remap_class ----------------
     rc = cm.impl_fn(IMPL, "remap_class")
     rc.ret("ret")
-    rc.props_safety = ["C12"]
+    rc.props_safety = ["C12", "C13"]
     rc.props_all = ["C04", "C02"] if fun else ["C12"]
     if fun:
         rc.contract("""    requires wf_cache(*self),
@@ -314,7 +314,7 @@ use super::*;
     # ---------------- remap_frame ----------------
     rf = cm.impl_fn(IMPL, "remap_frame")
     rf.ret("ret")
-    rf.props_safety = ["C12"]
+    rf.props_safety = ["C12", "C13"]
     rf.props_all = ["C01", "C02", "C03"] if fun else ["C12"]
     rf.closure("|m|", occ=1, params="|m: &raw::Member|", ret="o: Ordering",
                spec="ensures o == member_cmp2(self.string_bytes@, *m, frame.method@, frame_params@)" if fun else "")
@@ -392,7 +392,7 @@ use super::*;
     # ---------------- remap_method ----------------
     rm = cm.impl_fn(IMPL, "remap_method")
     rm.ret("ret")
-    rm.props_safety = ["C12"]
+    rm.props_safety = ["C12", "C13"]
     rm.props_all = ["C04", "C02"] if fun else ["C12"]
     rm.closure("|m|", params="|m: &raw::Member|", ret="o: Ordering",
                spec="ensures o == member_cmp(self.string_bytes@, *m, method@)" if fun else "")
@@ -508,7 +508,7 @@ use super::*;
     nx = cm.impl_fn(ITI, "next")
     nx.replace("Self::Item", "StackFrame<'data>", "R8", why="trait method verified as inherent method: associated type spelled out")
     nx.ret("ret")
-    nx.props_safety = ["C12"]
+    nx.props_safety = ["C12", "C13"]
     nx.props_all = ["C01", "C02", "C03"] if fun else ["C12"]
     if fun:
         nx.contract("""    requires it_wf(*old(self)),
